@@ -117,7 +117,7 @@ interp_int!(interp_u32, u32, i64, u32::MAX);
 fn c01_interp_i8() {
     interp_i8(0);
 }
-//@ prop=C01,C19 tier=quick mem=2 timeout=1800 inst="interpolation kernels at u8" bounds="all lower <= higher, every q, N 1..=64"
+//@ prop=C01,C19:thorough tier=quick mem=2 timeout=1800 inst="interpolation kernels at u8" bounds="all lower <= higher, every q, N 1..=64"
 #[kani::proof]
 fn c01_interp_u8() {
     interp_u8(0);
@@ -185,7 +185,7 @@ fn c01_known_linear_i8_spread() {
 }
 
 /// N64 Midpoint / Nearest: bit-equal to the documented formulas evaluated in f64, every q.
-//@ prop=C01,C19 tier=quick mem=3 timeout=1800 inst="Midpoint / Nearest ::interpolate at N64" bounds="all finite lower <= higher with |v| <= 2^500, every q, N 1..=64"
+//@ prop=C01,C19:thorough tier=quick mem=3 timeout=1800 inst="Midpoint / Nearest ::interpolate at N64" bounds="all finite lower <= higher with |v| <= 2^500, every q, N 1..=64"
 #[kani::proof]
 fn c01_interp_n64_midpoint_nearest() {
     let l: f64 = kani::any();
@@ -394,15 +394,15 @@ macro_rules! c01_pipe {
     };
 }
 
-//@ prop=C01,C03,C20 tier=quick mem=8 timeout=3000 flags=modelmap uses=cut inst="quantiles_axis_mut(Axis(0), [0.75, 0.25, 0.75], Lower) on ArrayViewMut2<i8> 3x2 F-order" bounds="all lane contents; 2 lanes of 3; 3 requests (repeat, non-monotone); unwind 10"
+//@ prop=C01,C03:thorough,C20:thorough tier=quick mem=8 timeout=3000 flags=modelmap uses=cut inst="quantiles_axis_mut(Axis(0), [0.75, 0.25, 0.75], Lower) on ArrayViewMut2<i8> 3x2 F-order" bounds="all lane contents; 2 lanes of 3; 3 requests (repeat, non-monotone); unwind 10"
 c01_pipe!(c01_pipe_lower_3x2_f_ax0, i8, id8, 0i8, Lower, 3, 2, 6, 3, 1, 0, [T3[4], T3[3], T3[4]], 10);
-//@ prop=C01,C03,C20 tier=quick mem=8 timeout=3000 flags=modelmap uses=cut inst="quantiles_axis_mut(Axis(1), [0.5-ulp, 0.5+ulp], Higher) on ArrayViewMut2<i8> 2x3 stepped view of a 5x7 parent" bounds="all lane contents; 2 non-contiguous lanes of 3; unwind 10"
+//@ prop=C01,C03,C20:thorough tier=quick mem=8 timeout=3000 flags=modelmap uses=cut inst="quantiles_axis_mut(Axis(1), [0.5-ulp, 0.5+ulp], Higher) on ArrayViewMut2<i8> 2x3 stepped view of a 5x7 parent" bounds="all lane contents; 2 non-contiguous lanes of 3; unwind 10"
 c01_pipe!(c01_pipe_higher_2x3_step_ax1, i8, id8, 0i8, Higher, 2, 3, 6, 2, 2, 1, [T3[6], T3[7]], 10);
-//@ prop=C01,C03,C20 tier=quick mem=8 timeout=3000 flags=modelmap uses=cut inst="quantiles_axis_mut(Axis(1), [0.25, 0.3, 1.0], Nearest) on ArrayViewMut2<i8> 2x3 both axes reversed" bounds="all lane contents; unwind 10"
+//@ prop=C01,C03:thorough,C20:thorough tier=quick mem=8 timeout=3000 flags=modelmap uses=cut inst="quantiles_axis_mut(Axis(1), [0.25, 0.3, 1.0], Nearest) on ArrayViewMut2<i8> 2x3 both axes reversed" bounds="all lane contents; unwind 10"
 c01_pipe!(c01_pipe_nearest_2x3_rev_ax1, i8, id8, 0i8, Nearest, 2, 3, 6, 3, 3, 1, [T3[3], T3[5], T3[1]], 10);
-//@ prop=C01,C03,C20 tier=quick mem=8 timeout=3000 flags=modelmap uses=cut inst="quantiles_axis_mut(Axis(0), [0.25, 0.5], Midpoint) on ArrayViewMut2<i16> 3x2 C-order" bounds="i8-range payloads; unwind 10"
+//@ prop=C01,C03:thorough,C20:thorough tier=quick mem=8 timeout=3000 flags=modelmap uses=cut inst="quantiles_axis_mut(Axis(0), [0.25, 0.5], Midpoint) on ArrayViewMut2<i16> 3x2 C-order" bounds="i8-range payloads; unwind 10"
 c01_pipe!(c01_pipe_midpoint_3x2_c_ax0, i16, w16, 0i16, Midpoint, 3, 2, 6, 2, 0, 0, [T3[3], T3[2]], 10);
-//@ prop=C01,C03,C20 tier=quick mem=8 timeout=3000 flags=modelmap uses=cut inst="quantiles_axis_mut(Axis(0), [0.3, 0.0], Linear) on ArrayViewMut2<i16> 3x2 F-order rows reversed" bounds="i8-range payloads; unwind 10"
+//@ prop=C01,C03:thorough,C20:thorough tier=quick mem=8 timeout=3000 flags=modelmap uses=cut inst="quantiles_axis_mut(Axis(0), [0.3, 0.0], Linear) on ArrayViewMut2<i16> 3x2 F-order rows reversed" bounds="i8-range payloads; unwind 10"
 c01_pipe!(c01_pipe_linear_3x2_frev_ax0, i16, w16, 0i16, Linear, 3, 2, 6, 2, 4, 0, [T3[5], T3[0]], 10);
 //@ prop=C01 tier=quick mem=6 timeout=3000 flags=modelmap uses=cut inst="quantiles_axis_mut with an EMPTY request list on ArrayViewMut2<i8> 2x2" bounds="0 requests; unwind 10"
 c01_pipe!(c01_pipe_lower_2x2_noreq, i8, id8, 0i8, Lower, 2, 2, 4, 0, 0, 1, [], 10);
@@ -419,7 +419,7 @@ c01_pipe!(c01_pipe_lower_1x3_all_rows, i8, id8, 0i8, Lower, 1, 3, 3, 8, 0, 1, T3
 c01_pipe!(c01_pipe_higher_1x3_all_rows, i8, id8, 0i8, Higher, 1, 3, 3, 8, 3, 1, T3, 12);
 
 /// 1-D entry points: quantile_mut / quantiles_mut, and the single-q axis form (axis removed).
-//@ prop=C01,C18 tier=quick mem=6 timeout=3000 flags=modelmap uses=cut inst="quantile_mut / quantiles_mut / quantile_axis_mut on Array1<i16> len 3 and a 3x1 column; Midpoint, q = 0.75" bounds="i8-range payloads; unwind 10"
+//@ prop=C01,C18:thorough tier=quick mem=6 timeout=3000 flags=modelmap uses=cut inst="quantile_mut / quantiles_mut / quantile_axis_mut on Array1<i16> len 3 and a 3x1 column; Midpoint, q = 0.75" bounds="i8-range payloads; unwind 10"
 #[kani::proof]
 #[kani::unwind(10)]
 fn c01_entry_points_1d() {
